@@ -1598,8 +1598,18 @@ impl Node {
     where
         F: Fn(&mut dyn ChannelBase) -> Result<T, Status>,
     {
-        let slot_mutex = self.get_channel(channel_id)?;
+        // The slot is locked while the channel map is still locked (lock order: channels ->
+        // channel) and the map is released right after.  If the map were released first, the
+        // channel could be forgotten, pruned or made ready in between, and the request would
+        // run on (and persist) a slot that the map no longer refers to.
+        let channels = self.get_channels();
+        let slot_mutex = Arc::clone(
+            channels
+                .get(channel_id)
+                .ok_or_else(|| invalid_argument(format!("no such channel: {}", &channel_id)))?,
+        );
         let mut slot = slot_mutex.lock().unwrap();
+        drop(channels);
         let base = match &mut *slot {
             ChannelSlot::Stub(stub) => stub as &mut dyn ChannelBase,
             ChannelSlot::Ready(chan) => chan as &mut dyn ChannelBase,
@@ -1614,8 +1624,15 @@ impl Node {
     where
         F: FnOnce(&mut Channel) -> Result<T, Status>,
     {
-        let slot_arc = self.get_channel(channel_id)?;
+        // see with_channel_base: the slot is locked before the channel map is released
+        let channels = self.get_channels();
+        let slot_arc = Arc::clone(
+            channels
+                .get(channel_id)
+                .ok_or_else(|| invalid_argument(format!("no such channel: {}", &channel_id)))?,
+        );
         let mut slot = slot_arc.lock().unwrap();
+        drop(channels);
         match &mut *slot {
             ChannelSlot::Stub(_) =>
                 Err(invalid_argument(format!("channel not ready: {}", &channel_id))),
